@@ -35,9 +35,9 @@ PROPS = {
     'C12': _p('exploration'),
     'C13': _p('exploration'),
     'C14': _p('exploration'),
-    'C15': _p('exploration'),
+    'C15': _p('proof', explanation='kahn proved against its layering contract (loop invariant over a counting model); converse / flatmap / operation_adjacency proved to compute the dependency relation; layer() proved to satisfy the local form of the property, from which the path form follows by verified lemmas; grouping (layered_operations) bounded'),
     'C16': _p('exploration'),
-    'C17': _p('proof', explanation='is_monogamous and degrees proved; acyclicity bounded', dev_profile=True),
+    'C17': _p('proof', explanation='is_monogamous and degrees proved; is_acyclic proved: true iff no node reaches itself (kahn + node adjacency under contract, cycle lemmas)', dev_profile=True),
     'C18': _p('proof', explanation='validate iff + error variants and is_monomorphism proved; convexity bounded'),
     'C19': _p('exploration'),
     'C20': _p('exploration'),
@@ -72,6 +72,17 @@ EXTRA_PROPS = {
     'functor::define_map_arrow': ['C20'],
     'functor::spider_map_arrow': ['C20'],
     'graph::converse': ['C20'],
+    'graph::kahn': ['C20'],
+    'graph::filter': ['C16', 'C17', 'C20'],
+    'graph::zero': ['C16', 'C17', 'C20'],
+    'graph::indegree': ['C16', 'C20'],
+    'graph::dense_relative_indegree': ['C16', 'C20'],
+    'graph::sparse_relative_indegree': ['C16'],
+    'graph::node_adjacency': ['C20'],
+    'graph::node_adjacency_from_incidence': ['C20'],
+    'indexed_coproduct::IndexedCoproduct::flatmap': ['C16', 'C17', 'C18', 'C20'],
+    'layer::Hypergraph::is_acyclic': ['C20'],
+    'layer::OpenHypergraph::is_acyclic': ['C20'],
     'graph::operation_adjacency': ['C20'],
     'layer::layer': ['C20'],
     'hypergraph_arrow::HypergraphArrow::validate': ['C20'],
